@@ -1,16 +1,25 @@
 """C14 - files outside the logger's naming pattern are never touched and never disturb it."""
 import gen_flw as g
 
-CLAIM = ("Decided per explored history by comparing, on the implementation, a run in a directory pre-populated with foreign files (near "
-         "misses of the family pattern) with its twin run in a clean directory: every foreign file must still exist with unchanged "
-         "bytes, and the family files, the results of existing_log_files and all return values must be identical in both runs "
-         "(noninterference oracle), together with the correspondence check of both runs against the model. Proved in Coq: the "
-         "characterisation of family names used by the oracles (full_infix recognises exactly fixed[_infix][.suffix][.gz], "
-         "C14_family_name_shape) and that the model's listing never returns a name without the fixed part and separator "
-         "(C14_listing_prefix); the listing's family test accepts exactly the documented pattern (C14_listing_accepts_family_only / "
-         "_all_family) and an entry it rejects does not influence filter_files, on which numbering, collision handling and cleanup "
-         "work (C14_foreign_ignored). Noninterference for whole histories (all effects) is not proved: partial.")
-THEOREMS = ["C14_foreign_ignored", "C14_listing_accepts_family_only", "C14_listing_accepts_all_family", "C14_family_name_shape", "C14_listing_prefix"]
+CLAIM = ('Proved in Coq END TO END for the model, Numbers naming without and with a cleanup strategy, EVERY history of a run and '
+         'EVERY set of foreign files whose names the family test rejects (this covers near misses such as a_r00001.log.bak, '
+         "a_rx.log, a_r1.log, ax_r00001.log, other suffixes): the logger's observations are exactly those of the run in the "
+         'empty directory (snapshots modulo the foreign entries), every foreign file keeps its content, all other names and '
+         'contents are those of the run in the empty directory - also under cleanup, which neither removes nor compresses a '
+         'foreign file (C14_numbers_foreign_ignored, C14_numbers_stream_foreign, C14_numbers_cleanup_foreign_ignored; the proof '
+         'is a step-by-step commutation of the whole model with an embedding of the directory). The proof attempt pinned down '
+         'the family test exactly: a_r1x.log IS a family member for the number filter (r + digit + one more byte) - such names '
+         'are not foreign. Decided per explored history by comparing, on the implementation, a run in a directory pre-populated '
+         'with foreign files (near misses of the family pattern) with its twin run in a clean directory: every foreign file must '
+         'still exist with unchanged bytes, and the family files, the results of existing_log_files and all return values must '
+         'be identical in both runs (noninterference oracle), together with the correspondence check of both runs against the '
+         'model. Proved in Coq: the characterisation of family names used by the oracles (full_infix recognises exactly '
+         "fixed[_infix][.suffix][.gz], C14_family_name_shape) and that the model's listing never returns a name without the "
+         "fixed part and separator (C14_listing_prefix); the listing's family test accepts exactly the documented pattern "
+         '(C14_listing_accepts_family_only / _all_family) and an entry it rejects does not influence filter_files, on which '
+         'numbering, collision handling and cleanup work (C14_foreign_ignored). Noninterference for whole histories (all '
+         'effects) is not proved: partial. ')
+THEOREMS = ["C14_numbers_foreign_ignored", "C14_numbers_stream_foreign", "C14_numbers_cleanup_foreign_ignored", "C14_foreign_ignored", "C14_listing_accepts_family_only", "C14_listing_accepts_all_family", "C14_family_name_shape", "C14_listing_prefix"]
 TRUSTED = ["modelled, not verified: read_dir, Path::extension/file_stem (std semantics pinned in DESIGN appendix D)"]
 ASSUMPTIONS = ["foreign names are generated from a near-miss grammar; file modification times are not compared (content and existence are)"]
 RULE = ("pairs of cases: (a) 1-4 foreign files/sub-directories created first - other separator, longer/shorter basename with common "
